@@ -16,6 +16,8 @@ All statements are for data sets of any size over any linearly ordered field.
 import ZepidVerif.Lemmas.Relabel
 import ZepidVerif.Lemmas.Msm
 import ZepidVerif.Lemmas.TmleFlip
+import ZepidVerif.Lemmas.IceInv
+import ZepidVerif.Props.C12
 import ZepidVerif.Props.C07
 import Mathlib.Algebra.Order.Field.Rat
 import Mathlib.Tactic.NormNum
@@ -681,6 +683,78 @@ theorem tmle_flip_continuous (σ lg : F → F) (e1 e2 mini maxi : F) (l : List (
   Tmle.fitContinuous_flip σ lg e1 e2 mini maxi l
 
 
+/-! ### IterativeCondGFormula: the backward recursion under row permutation and recoding of the covariates
+
+`ZV.Ice.fit` (Model/Ice.lean) is `IterativeCondGFormula.fit`: backward sequential regression, pseudo-outcome =
+earlier prediction unless missing, prediction under the plan, NaN-skipping mean of the first prediction.  The
+sequential fits enter as the function `μ` (prediction of the step-`k` model at a treatment / covariate history). -/
+
+/-- **ice_perm_invariant.**  For any fitted function, the whole `fit` — estimate or rejection — is a function of the
+    multiset of individuals: a 1-d plan with the rows permuted, a 2-d plan whose rows travel with the individuals. -/
+theorem ice_perm_invariant (spec : Bool) (μ : List Bool → List Nat → F) (K : Nat) :
+    (∀ (g : List Bool) (rows₁ rows₂ : List Ice.WRow), rows₁.Perm rows₂ →
+      Ice.fit spec μ (.single g) rows₁ K = Ice.fit spec μ (.single g) rows₂ K) ∧
+    (∀ (p₁ p₂ : List (List Bool × Ice.WRow)), p₁.Perm p₂ →
+      Ice.fit spec μ (.matrix (p₁.map Prod.fst)) (p₁.map Prod.snd) K
+        = Ice.fit spec μ (.matrix (p₂.map Prod.fst)) (p₂.map Prod.snd) K) :=
+  ⟨fun g _ _ h => IceInv.fit_single_perm spec μ g h K, fun _ _ h => IceInv.fit_matrix_perm spec μ h K⟩
+
+/-- **ice_perm_invariant_cellfit.**  Two runs on permuted data, *each with its own sequential fits* `μ₁`, `μ₂`
+    (saturated models: each satisfies the cell score equations of its own data — the fits may differ off the plan
+    and in empty cells), under the hypotheses of `P12.ice_eq_npgformula` on the first data set: both return the
+    nonparametric g-formula value, which is computed from cell counts, hence the same number. -/
+theorem ice_perm_invariant_cellfit (μ₁ μ₂ : List Bool → List Nat → F) (g : List Bool) {rows₁ rows₂ : List Ice.WRow}
+    (h : rows₁.Perm rows₂) (K : Nat) (levels : List Nat) (hK : 0 < K) (hwf : Ice.wellFormed K rows₁ = true)
+    (hg : g.length = K) (hsurv : ∀ r ∈ rows₁, Ice.survType r.ys = true) (hnd : levels.Nodup)
+    (hcov : Ice.levelsCover levels rows₁ = true) (hpos : Ice.planPositive levels g rows₁ K = true)
+    (hfit₁ : Ice.IsCellFit μ₁ g rows₁ K) (hfit₂ : Ice.IsCellFit μ₂ g rows₂ K) :
+    Ice.fit true μ₂ (.single g) rows₂ K = Ice.fit true μ₁ (.single g) rows₁ K ∧
+    Ice.fit true μ₁ (.single g) rows₁ K = .ok (Ice.npg levels g rows₁ K) := by
+  have e1 := P12.ice_eq_npgformula μ₁ g rows₁ K levels hK hwf hg hsurv hnd hcov hfit₁ hpos
+  have e2 := P12.ice_eq_npgformula μ₂ g rows₂ K levels hK (by rw [← IceInv.wellFormed_perm h]; exact hwf) hg
+    (fun r hr => hsurv r (h.mem_iff.mpr hr)) hnd (by rw [← IceInv.levelsCover_perm h]; exact hcov) hfit₂
+    (by rw [← IceInv.planPositive_perm h]; exact hpos)
+  rw [e1, e2, IceInv.npg_perm h]
+  exact ⟨rfl, rfl⟩
+
+/-- the cell score equations themselves are permutation invariant: a fit of the data is a fit of the permuted data -/
+theorem ice_cellfit_perm (μ : List Bool → List Nat → F) (g : List Bool) {rows₁ rows₂ : List Ice.WRow}
+    (h : rows₁.Perm rows₂) (K : Nat) : Ice.IsCellFit μ g rows₁ K ↔ Ice.IsCellFit μ g rows₂ K :=
+  ⟨IceInv.isCellFit_perm h g μ K, IceInv.isCellFit_perm h.symm g μ K⟩
+
+/-- **ice_relabel_invariant.**  Recode the covariate values by an injective map at every time point (`φ k` at time
+    `k`, left inverse `ψ k`; `IceInv.relabelW φ` recodes an individual).  (i) For any fitted function `μ` the
+    recursion run on the recoded data with the corresponding fitted function (`μ` read through `ψ`) returns the
+    same value, for every plan; (ii) that function satisfies the cell score equations of the recoded data when `μ`
+    satisfies those of the original data; (iii) hence *any* saturated sequential fits `μ₂` of the recoded data give
+    the estimate of the original run, under the hypotheses of `P12.ice_eq_npgformula` on the original data (the
+    level list and positivity of the recoded data are derived, not assumed). -/
+theorem ice_relabel_invariant (φ ψ : Nat → Nat → Nat) (hψ : ∀ k l, ψ k (φ k l) = l)
+    (μ : List Bool → List Nat → F) (rows : List Ice.WRow) (K : Nat) :
+    (∀ spec plan, Ice.fit spec (IceInv.muRelab ψ μ) plan (rows.map (IceInv.relabelW φ)) K = Ice.fit spec μ plan rows K) ∧
+    (∀ g, Ice.IsCellFit μ g rows K → Ice.IsCellFit (IceInv.muRelab ψ μ) g (rows.map (IceInv.relabelW φ)) K) ∧
+    (∀ (μ₂ : List Bool → List Nat → F) (g : List Bool) (levels : List Nat), 0 < K → Ice.wellFormed K rows = true →
+      g.length = K → (∀ r ∈ rows, Ice.survType r.ys = true) → levels.Nodup → Ice.levelsCover levels rows = true →
+      Ice.planPositive levels g rows K = true → Ice.IsCellFit μ g rows K →
+      Ice.IsCellFit μ₂ g (rows.map (IceInv.relabelW φ)) K →
+      Ice.fit true μ₂ (.single g) (rows.map (IceInv.relabelW φ)) K = Ice.fit true μ (.single g) rows K) := by
+  refine ⟨fun spec plan => IceInv.fit_relab φ ψ hψ spec μ plan rows K,
+    fun g hf => IceInv.isCellFit_relab φ ψ hψ μ g rows K hf, ?_⟩
+  intro μ₂ g levels hK hwf hg hsurv hnd hcov hpos hfit hfit₂
+  have hwf' := IceInv.wellFormed_relab φ K rows hwf
+  have hsurv' : ∀ r ∈ rows.map (IceInv.relabelW φ), Ice.survType r.ys = true := by
+    intro r' hr'
+    obtain ⟨r, hr, rfl⟩ := List.mem_map.mp hr'
+    exact hsurv r hr
+  have hnd' := IceInv.relabLevels_nodup φ K levels
+  have hcov' := IceInv.levelsCover_relab φ K levels rows hwf hcov
+  have hpos' := IceInv.planPositive_relab φ ψ hψ g rows levels (IceInv.relabLevels φ K levels) hcov K hpos
+  rw [P12.ice_eq_npgformula μ₂ g _ K _ hK hwf' hg hsurv' hnd' hcov' hfit₂ hpos',
+    ← P12.ice_eq_npgformula (IceInv.muRelab ψ μ) g _ K _ hK hwf' hg hsurv' hnd' hcov'
+      (IceInv.isCellFit_relab φ ψ hψ μ g rows K hfit) hpos']
+  exact IceInv.fit_relab φ ψ hψ true μ (.single g) rows K
+
+
 /-! ### Closed-form g-estimation of a structural nested mean model -/
 
 /-- **snm_affine.**  `ψ` solves the estimating equations `Σ w(A−π)V_k (Y − A Σ_j ψ_j V_j) = 0` for the outcome
@@ -918,6 +992,30 @@ example : Tmle.rdOf (Tmle.targets id id (11/75) (-9/50) exT) = 1/6 ∧
   simp only [Tmle.rdOf, Tmle.rrOf, Tmle.risk1Of, Tmle.risk0Of, Tmle.mean, Tmle.targets, exT, Tmle.flipT, List.map,
     List.length, sumBy, Tmle.qstar1, Tmle.qstar0, id]
   norm_num
+
+-- ICE: the two-period data set of `Props/C12.lean` (hypotheses of `ice_eq_npgformula` shown there), reversed, and
+-- with the covariate recoded 0 ↦ 7 at time 0 and 0 ↔ 1 at time 1; the saturated fit of the original data read
+-- through the inverse recoding is a saturated fit of the recoded data, and the estimate 4/5 is unchanged
+def exPhi : Nat → Nat → Nat := fun k l => if k = 0 then l + 7 else if l = 0 then 1 else if l = 1 then 0 else l
+def exPsi : Nat → Nat → Nat := fun k l => if k = 0 then l - 7 else if l = 0 then 1 else if l = 1 then 0 else l
+theorem exPsiPhi : ∀ k l, exPsi k (exPhi k l) = l := by
+  intro k l
+  unfold exPsi exPhi
+  by_cases hk : k = 0
+  · simp [hk]
+  · by_cases h0 : l = 0
+    · simp [hk, h0]
+    · by_cases h1 : l = 1
+      · simp [hk, h1]
+      · simp [hk, h0, h1]
+example : P12.exRows.Perm P12.exRows.reverse ∧ P12.exRows.reverse ≠ P12.exRows :=
+  ⟨(List.reverse_perm _).symm, by decide⟩
+example : (P12.exRows.map (IceInv.relabelW exPhi)).map (·.ls) = [[7, 1], [7, 1], [7, 0], [7, 0], [7, 1], [7, 1]] := by
+  decide
+example : Ice.IsCellFit (IceInv.muRelab exPsi P12.exMu) [true, true] (P12.exRows.map (IceInv.relabelW exPhi)) 2 ∧
+    Ice.fit true (IceInv.muRelab exPsi P12.exMu) (.single [true, true]) (P12.exRows.map (IceInv.relabelW exPhi)) 2
+      = .ok (4 / 5) :=
+  ⟨(ice_relabel_invariant exPhi exPsi exPsiPhi P12.exMu P12.exRows 2).2.1 _ P12.exFit, by decide +kernel⟩
 
 -- g-estimation: a data set whose exposure model (intercept only, π = 1/2) satisfies its score equation; ψ = 2
 def exSnm : List (SnmR.SRow ℚ) := [⟨true, 3, 1, 1/2, fun _ => 1⟩, ⟨false, 1, 1, 1/2, fun _ => 1⟩]
